@@ -36,6 +36,7 @@ var c15Quirks = map[string][]string{
 	"replace_reference": {"replace_reference/drops-meta", "replace_reference/refs-outside-visitor-positions"},
 	"constant_to_enum":  {"constant_to_enum/drops-meta"},
 	"hint_object":       {"hint_object/nil-hints-panic"},
+	"trim_enum_values":  {"trim_enum_values/enums-outside-visitor-positions"},
 	"prefix":            {"prefix/refs-outside-visitor-positions", "prefix/enum-member-names-rewritten", "prefix/entrypoint-string-stale"},
 }
 
@@ -603,21 +604,36 @@ func c15SpecStep(st *c15Step, ss ast.Schemas, q c15Q, touched map[string]bool) s
 			return o, true
 		})
 	case "fields_set_default":
+		// documented (comment in the pass): references are examined in a fixed order — sorted by
+		// package, object, field — and the last one that matches wins
+		type ent struct {
+			r c15FRef
+			v any
+		}
+		ents := []ent{}
+		for _, e := range st.KVs {
+			p, ob, fl, _ := c15FieldRef(e.K)
+			ents = append(ents, ent{c15FRef{p, ob, fl}, e.V})
+		}
+		sort.SliceStable(ents, func(i, j int) bool {
+			a, b := ents[i].r, ents[j].r
+			if a.pkg != b.pkg {
+				return a.pkg < b.pkg
+			}
+			if a.obj != b.obj {
+				return a.obj < b.obj
+			}
+			return a.field < b.field
+		})
 		forObjs(func(_ *ast.Schema, o ast.Object) (ast.Object, bool) {
 			if o.Type.Kind != ast.KindStruct || o.Type.Struct == nil {
 				return o, true
 			}
 			for i, f := range o.Type.Struct.Fields {
-				n := 0
-				for _, e := range st.KVs {
-					p, ob, fl, _ := c15FieldRef(e.K)
-					if (c15FRef{p, ob, fl}).matches(o, f) {
+				for _, e := range ents {
+					if e.r.matches(o, f) {
 						touch(o)
-						if n > 0 && virVal(o.Type.Struct.Fields[i].Type.Default) != virVal(e.V) {
-							status = "ambiguous"
-						}
-						o.Type.Struct.Fields[i].Type.Default = c15CloneVal(e.V)
-						n++
+						o.Type.Struct.Fields[i].Type.Default = c15CloneVal(e.v)
 					}
 				}
 			}
@@ -659,7 +675,7 @@ func c15SpecStep(st *c15Step, ss ast.Schemas, q c15Q, touched map[string]bool) s
 			return o, true
 		})
 	case "trim_enum_values":
-		forTypes(true, func(t *ast.Type) {
+		forTypes(!q["trim_enum_values/enums-outside-visitor-positions"], func(t *ast.Type) {
 			if t.Kind == ast.KindEnum && t.Enum != nil {
 				for i, v := range t.Enum.Values {
 					if s, ok := v.Value.(string); ok {
@@ -914,11 +930,6 @@ func c15Verdict(steps []*c15Step, in ast.Schemas, status string, out ast.Schemas
 		}
 	}
 	sort.Strings(names)
-	// fields_set_default with keys that hit the same field with different values: the result
-	// depends on Go's map iteration order; there is nothing to compare against
-	if _, es, _ := c15Spec(steps, in, c15Q{}); es == "ambiguous" {
-		return "FAIL " + label + " explained-by=fields_set_default/ambiguous-keys " + diff
-	}
 	best := ""
 	for mask := 1; mask < 1<<len(names); mask++ {
 		q := c15Q{}
